@@ -99,7 +99,18 @@ def run_resolution(case):
     for t in sorted(times):
         want = model_lead(ltds, t, case["month"])
         if want is None or want >= len(cs):
-            continue            # outside the chain's span
+            # outside the chain's span no listed contract is still trading (shifted by the offset): whatever the call does,
+            # it must not hand out a contract that is past its last trading date
+            try:
+                got = chain.lead_contract(t)
+            except Exception:  # noqa
+                res.tag("beyond-span-refused")
+                continue
+            if case["month"] == 0 and not to_dt(got.last_trading_date) > t:
+                res.fail("at %s, after the last trading date of every listed contract, lead_contract returned %s whose last trading date is %s" % (
+                    t, got.symbol, got.last_trading_date))
+                return res
+            continue
         if other is not None:
             ow = model_lead(other_ltds, t, 0)
             if ow is not None and ow < len(other.contracts):
